@@ -27,6 +27,7 @@ Section Handler.
     hc_dense : bool;
     hc_first_step : option F;
     hc_x0 : F;
+    hc_tol : F;                           (* slack of the time comparisons: 1e-12 * min(|xend - x0|, 1) *)
     hc_events : F -> vec -> vec;          (* all event functions at once *)
     hc_nevents : nat;
     hc_evcfg : list event_config;
@@ -183,7 +184,7 @@ Section Handler.
         if term then
           let '(nx, t1, y1) :=
             match hc_t_eval C with
-            | Some tev => scan_terminal fwd (L L1em12) xold te interp (skipn (hs_next s1) tev)
+            | Some tev => scan_terminal fwd (hc_tol C) xold te interp (skipn (hs_next s1) tev)
                                         (hs_next s1) (hs_t s1) (hs_y s1)
             | None => (hs_next s1, hs_t s1, hs_y s1)
             end in
@@ -214,7 +215,8 @@ Section Handler.
         else (i, t, ys)
     end.
 
-  Definition TOL := L L1em12.
+  (* DefaultSolOut::new: tol = 1e-12 * span.abs().min(1.0) *)
+  Definition handler_tol (span : F) : F := L L1em12 * fmin O (abs O span) (one O).
 
   Definition interp_of (C : hconfig) (n : nat) (sg : option seg) (xi : F) : vec :=
     match sg with
@@ -281,8 +283,8 @@ Section Handler.
     | Some te =>
         let rest := skipn (hs_next s) te in
         let '(i, t, ys) :=
-          if xold =? x then scan_initial TOL x y rest (hs_next s) (hs_t s) (hs_y s)
-          else scan_step (x >? xold) TOL xold x interp rest (hs_next s) (hs_t s) (hs_y s) in
+          if xold =? x then scan_initial (hc_tol C) x y rest (hs_next s) (hs_t s) (hs_y s)
+          else scan_step (x >? xold) (hc_tol C) xold x interp rest (hs_next s) (hs_t s) (hs_y s) in
         mkHS i t ys (hs_tev s) (hs_yev s) (hs_segs s) (hs_yold s) (hs_prev s) (hs_hits s)
              (hs_first_done s) (hs_evlog s) (hs_brent_unconverged s)
     | None =>
@@ -301,13 +303,13 @@ Section Handler.
             if negb (hs_first_done s) && negb (xold =? x) then
               let dirn := signum O (x - xold) in
               let target := hc_x0 C + dirn * h0 in
-              if (dirn * (x - target)) >=? neg O TOL then
+              if (dirn * (x - target)) >=? neg O (hc_tol C) then
                 let '(t1, y1, done) :=
                   match sg with
                   | Some _ => (target :: hs_t s, interp target :: hs_y s, true)
                   | None => (hs_t s, hs_y s, hs_first_done s)
                   end in
-                let '(t2, y2) := if abs O (x - target) >? TOL then (x :: t1, y :: y1) else (t1, y1) in
+                let '(t2, y2) := if abs O (x - target) >? hc_tol C then (x :: t1, y :: y1) else (t1, y1) in
                 mkHS (hs_next s) t2 y2 (hs_tev s) (hs_yev s) (hs_segs s) (hs_yold s) (hs_prev s)
                      (hs_hits s) done (hs_evlog s) (hs_brent_unconverged s)
               else s
